@@ -4,21 +4,9 @@ From Coq Require Import String List ZArith NArith Bool Lia.
 From Coq.Strings Require Import Byte.
 Import ListNotations.
 From OV Require Import Base.Bytes Base.Cases Base.Tree Gen.Conv Model.Value Model.XPathFrag Model.Decl Model.Eval.
-From OV Require Import Proofs.Value Proofs.EvalPure.
+From OV Require Import Proofs.Value Proofs.ValuePrint Proofs.EvalPure.
 
 (* ---- one normalisation = two normalisations ------------------------------------------------------ *)
-Lemma trim_left_fix encs n s : strip_any encs s = None -> trim_left_with encs n s = s.
-Proof. intro H. destruct n; simpl; [reflexivity|]. rewrite H. reflexivity. Qed.
-
-Lemma trimmed_trim_id s : trimmed s -> trim_space s = s.
-Proof.
-  intros [H1 H2]. unfold trim_space, trim_left, trim_right.
-  rewrite (trim_left_fix _ _ _ H1). fold ws_rev. rewrite (trim_left_fix _ _ _ H2). apply rev_involutive.
-Qed.
-
-Lemma trim_space_idem s : trim_space (trim_space s) = trim_space s.
-Proof. apply trimmed_trim_id. apply trim_space_trimmed. Qed.
-
 Lemma bool_str_trim b : trim_space (bool_str b) = bool_str b.
 Proof. destruct b; vm_compute; reflexivity. Qed.
 
@@ -419,7 +407,8 @@ Section MatchesSpec.
 
   (* every custom_func of the tree is registered (validate checks this) *)
   Definition funcs_ok (v : vdecl) : Prop :=
-    forall d, In d (subdecls v) -> forall name, p_fname (v_pub (vd_info d)) = Some name -> fsigs name <> None.
+    forall d, In d (subdecls v) -> p_kind (v_pub (vd_info d)) = KCustomFunc ->
+    forall name, p_fname (v_pub (vd_info d)) = Some name -> fsigs name <> None.
 
   Lemma wf_b_kind t i x ks : wf_b t (VD i x ks) = true ->
     match p_kind (v_pub i) with
@@ -532,7 +521,7 @@ Section MatchesSpec.
       assert (Hk : Forall (fun c => child_ok c true) ks).
       { eapply Forall_impl; [|apply (Hkids true); reflexivity]. intros c [H _]. exact H. }
       assert (Hsig : fsigs name <> None).
-      { apply (Hfn (VD i x ks) (self_sub _)). exact FN. }
+      { apply (Hfn (VD i x ks) (self_sub _)); [exact K|exact FN]. }
       assert (Hbody : forall n, V n ->
                 p_then_norm e (p_invoke fsigs fcall e (map (fun c => (kid_key KCustomFunc c, pcompile c)) ks) n)
                 = to_res (spec_call fsigs fcall (nrm i) name (p_ignore (v_pub i)) n
